@@ -21,8 +21,13 @@ type c16PCOp struct {
 	addr int // which address the peer announces
 }
 
-func c16PeerCacheScenario(rep *verifkit.Report, ops []c16PCOp, nwaiters int, withCancel bool, plan string) *verifsched.Scenario {
+func c16PeerCacheScenario(rep *verifkit.Report, ops []c16PCOp, nwaiters int, withCancel bool, withRemover bool, plan string) *verifsched.Scenario {
 	c := newPeerCache()
+	removed := peer.ID("peer-r")
+	if withRemover {
+		// a peer recorded earlier on the topic (and on no other), which a driver un-registers while the updater records others
+		c.UpdatePeer("t", peer.AddrInfo{ID: removed, Addrs: []ma.Multiaddr{ma.StringCast("/ip4/1.2.3.4/tcp/9")}})
+	}
 	ctx, cancel := context.WithCancel(context.Background())
 	ids := []peer.ID{peer.ID("peer-a"), peer.ID("peer-b")}
 	addrs := []ma.Multiaddr{ma.StringCast("/ip4/1.2.3.4/tcp/1"), ma.StringCast("/ip4/1.2.3.4/tcp/2")}
@@ -34,8 +39,9 @@ func c16PeerCacheScenario(rep *verifkit.Report, ops []c16PCOp, nwaiters int, wit
 		names = append(names, fmt.Sprintf("UpdatePeer(t,p%d,addr%d)", o.peer+1, o.addr+1))
 		announced[ids[o.peer]] = true
 	}
+	announced[removed] = withRemover
 	wit := func(extra map[string]interface{}) map[string]interface{} {
-		w := map[string]interface{}{"updater_sequence": names, "waiters": nwaiters, "cancellation": withCancel, "plan": plan}
+		w := map[string]interface{}{"updater_sequence": names, "waiters": nwaiters, "cancellation": withCancel, "remover": withRemover, "plan": plan}
 		for k, v := range extra {
 			w[k] = v
 		}
@@ -80,6 +86,12 @@ func c16PeerCacheScenario(rep *verifkit.Report, ops []c16PCOp, nwaiters int, wit
 					}
 				}
 			}
+		}
+	}
+	if withRemover {
+		sc.Finite = append(sc.Finite, "remover")
+		sc.Roles["remover"] = func() {
+			_ = c.RemoveFromCache(context.Background(), "t", removed)
 		}
 	}
 	if withCancel {
@@ -132,20 +144,22 @@ func TestVerifC16PeerCache(t *testing.T) {
 	rep := verifkit.NewReport("C16", "c16-peercache")
 	defer rep.Finish(t)
 	rep.Rule = "tinder peersCache on sync-point-instrumented sources (peer_cache.go, notify.go): an updater performing 1-3 UpdatePeer calls (new peer, same peer new address, same peer same address), 1-2 waiters looping on WaitForPeerUpdate with their own view, optional cancellation; " +
-		"un-perturbed, profile jitter, pair plans, seeded jitter; deadlock detector, missed-update detector at quiescence, cancellation negative. RemoveFromCache is outside the operations the statement quantifies over. distinct = (scenario, plan)"
+		"un-perturbed, profile jitter, pair plans, seeded jitter; and two scenarios in which a third task removes a peer recorded earlier on the topic (RemoveFromCache) meanwhile; deadlock detector, missed-update detector at quiescence, cancellation negative. distinct = (scenario, plan)"
 	type cfg struct {
 		ops []c16PCOp
 		w   int
 		c   bool
+		r   bool // a driver removes an earlier peer of the topic meanwhile
 	}
 	cfgs := []cfg{
-		{[]c16PCOp{{0, 0}}, 1, false}, {[]c16PCOp{{0, 0}, {1, 0}}, 1, false}, {[]c16PCOp{{0, 0}, {0, 1}, {0, 1}}, 2, false},
-		{[]c16PCOp{{0, 0}, {1, 1}, {0, 0}}, 1, false}, {[]c16PCOp{{0, 0}, {1, 0}}, 2, true},
+		{ops: []c16PCOp{{0, 0}}, w: 1}, {ops: []c16PCOp{{0, 0}, {1, 0}}, w: 1}, {ops: []c16PCOp{{0, 0}, {0, 1}, {0, 1}}, w: 2},
+		{ops: []c16PCOp{{0, 0}, {1, 1}, {0, 0}}, w: 1}, {ops: []c16PCOp{{0, 0}, {1, 0}}, w: 2, c: true},
+		{ops: []c16PCOp{{0, 0}, {1, 0}}, w: 1, r: true}, {ops: []c16PCOp{{0, 0}}, w: 2, c: true, r: true},
 	}
 	total := verifsched.ExploreStats{}
 	for ci, c := range cfgs {
 		c := c
-		st := verifsched.Explore(func(plan string) *verifsched.Scenario { return c16PeerCacheScenario(rep, c.ops, c.w, c.c, plan) },
+		st := verifsched.Explore(func(plan string) *verifsched.Scenario { return c16PeerCacheScenario(rep, c.ops, c.w, c.c, c.r, plan) },
 			8, verifkit.Pick(8, 80), uint64(verifkit.Seed())+uint64(ci), 20*time.Millisecond, verifkit.Pick(200, 1500),
 			func(plan string, realised bool, r verifsched.RunResult) {
 				rep.Eval(1)
